@@ -415,6 +415,21 @@ def check_optstrings(ctx):
             d = {k: (got.as_dict()[k], ref.as_dict()[k]) for k in ref.as_dict() if got.as_dict()[k] != ref.as_dict()[k]}
             ctx.violation(f"docutils option {flag}={text} gives a different configuration than MdParserConfig({name}={val!r}): {d}",
                           {"leg": "R-optstring", "option": flag, "value": text})
+    # option strings that are YAML but not a mapping: rejected like the same value given to the constructor
+    for name in ("html_meta", "substitutions", "inventories"):
+        for text in ("[]", "0", "0.0", "false", "no", "null", "~", "[a]", "1", "true", "a"):
+            n += 1
+            flag = "--myst-" + name.replace("_", "-")
+            ctx.count(("optstring-bad", name, text))
+            try:
+                import contextlib, io
+                with contextlib.redirect_stderr(io.StringIO()):
+                    settings = OptionParser(components=(Parser,)).parse_args([f"{flag}={text}"])
+                got = create_myst_config(settings)
+            except (SystemExit, Exception):  # noqa: BLE001
+                continue
+            ctx.violation(f"docutils option {flag}={text} (no mapping) is accepted and stored as {getattr(got, name)!r}; MdParserConfig rejects such a value",
+                          {"leg": "R-optstring", "option": flag, "value": text})
     return n
 
 
